@@ -150,7 +150,12 @@ def call(ex, st, fr, callee, last, args, argops, dest):
                 return _some(IV(exv, ity)) if inr else _none()
             return E._Alts([(inr, _some(IV(exv, ity))), (T.bnot(inr), _none())])
         if mode == "wrapping":
-            return IV(ex.wrap(st, exv, ity), ity)
+            a0, a1 = args[0], args[1]
+            if a0.ex is not None or a1.ex is not None:
+                exv = {"add": T.add, "sub": T.sub, "mul": T.mul}[op](a0.ex if a0.ex is not None else a0.t,
+                                                                       a1.ex if a1.ex is not None else a1.t)
+            w = ex.wrap(st, exv, ity)
+            return IV(w, ity, ex=None if w is exv else exv)
         if mode == "saturating":
             lo, hi = ty_range(ity)
             return IV(T.ite(T.lt(exv, lo), lo, T.ite(T.lt(hi, exv), hi, exv)), ity)
